@@ -25,6 +25,7 @@ META = {
                   'OpenDebug/CloseDebug/OpenTrace/CloseTrace operations, the transcript (calls, arguments, results, panics) under '
                   'each of the four logging configurations equals the logging-off transcript, the mock state stays equal up to debug wrappers, and '
                   'the process never dies in the logging code — PROVIDED fmt.Sprintf("%v") returns on every value (fmt is a parameter of the model). '
+                  'Variable mocks (Var/UnExportedVar Set/Apply/Reset): reads and final value independent of the configuration (full, on the model). '
                   'SprintV never consults fmt for nil pointers / nil interfaces; CallSlice-on-variadic / Call-otherwise forwards every deliverable '
                   'argument vector unchanged.',
     'level_note': 'Hypotheses of the theorems: fmt returns on every value (F13 otherwise), the user String()/Error() methods fmt runs record nothing and do not call the mock (F27 otherwise), the mocked function is not in the hand-collected list loggerCallees (F14/F15 otherwise); one mocker per environment, sequential callers, panics as classes (two-mocker lanes and panic-value kinds are observed only). Partial because fmt, reflect.MakeFunc/Call and the Go ABI are modelled (reflect by its documented argument checks), not verified; '
@@ -52,6 +53,11 @@ F27_KEY = 'F27-c19-fmt-runs-user-methods'
 DEATH_BY_RECURSION = ('CRASH:stack-overflow', 'CRASH:fatal')
 CYC_RE = re.compile(r'\bz2[0-3]\b')
 NOHOME = '@nohome '
+VARP = '@var '          # variable-mock lane (c19.v lines)
+
+
+def prefix_of(body):
+    return NOHOME if body.startswith(NOHOME) else VARP if body.startswith(VARP) else ''
 F13_KEY = 'F13-fmt-slice-map-cycle-debug-only'
 F14_KEY = 'F14-mock-of-function-the-console-logger-calls'
 
@@ -163,6 +169,25 @@ def gen_reentrant(rng):
     return f'{t} ' + ' ; '.join(ops)
 
 
+def gen_var(rng):
+    """variable mocks: Var / UnExportedVar on pointer variables (nil before the mock; set to a typed nil) and on an int"""
+    kind = rng.choice(['vp', 'vp', 'vq', 'up', 'up', 'uq', 'vi', 'ui'])
+    val = (lambda: rng.choice(NODES)) if kind[1] != 'i' else (lambda: rng.choice(INTS))
+    ops = ['read'] if rng.chance(1, 3) else []
+    for _ in range(rng.choice([1, 2, 3])):
+        for _ in range(rng.choice([1, 1, 2])):
+            ops += [rng.choice(['set ', 'set ', 'apply ']) + val(), 'read']
+        ops += ['reset', 'read']
+    if rng.chance(1, 3):
+        for _ in range(rng.choice([1, 2])):
+            ops.insert(rng.below(len(ops) + 1), 'dbg ' + rng.choice(['on', 'off', 'tron', 'troff']))
+    return VARP + kind + ' ' + ' ; '.join(ops)
+
+
+VAR_CORPUS = [VARP + 'vp read ; set n0 ; read ; reset ; read', VARP + 'vq set nil ; read ; reset ; read', VARP + 'up set n1 ; read ; set nil ; read ; reset ; read',
+              VARP + 'uq apply nil ; read ; reset ; read', VARP + 'vi set 5 ; read ; apply 9 ; read ; reset ; read', VARP + 'ui set 5 ; read ; reset ; read']
+
+
 def gen_void(rng):
     """a function without results (f0): callbacks, Return(), calls"""
     ops = []
@@ -197,6 +222,8 @@ def gen_streams(tier, rng, scale=1):
     tg = INT_T + PA_T + ['fa', 'fp', 'ip', 'fv', 'mv', 'iv']      # weight the value-heavy and variadic targets
     for i in range(n):
         bodies.append(gen_scenario(r, r.choice(tg), malformed=(i % 10 == 9)))
+    r = rng.fork('var')
+    bodies += VAR_CORPUS + [gen_var(r) for _ in range((60 if tier == 'quick' else 1200) * scale)]
     r = rng.fork('void')
     bodies += [gen_void(r) for _ in range((40 if tier == 'quick' else 800) * scale)]
     r = rng.fork('usermethod')
@@ -256,7 +283,8 @@ LIB_FUNCS = ['fmt.Print', 'fmt.Println', 'fmt.Fprint', 'fmt.Sprint', 'fmt.Sprint
 
 TIME_NOW = ['time.Now/func', 'time.Now/name', 'time.Now/ret', 'time.Now/as']   # every handle kind; debug.go:14 must recognise all of them
 
-LIB_MORE = ['byname.func', 'byname.method', 'two.nested', 'two.timenow', 'sites%d' % 600]
+TINY = ['tiny.const/apply', 'tiny.const/ret', 'tiny.getter/apply', 'tiny.getter/ret', 'tiny.neg/apply']   # own code shorter than the 13-byte jump
+LIB_MORE = TINY + ['byname.func', 'byname.method', 'two.nested', 'two.timenow', 'sites%d' % 600]
 
 CORPUS_RISKY = [
     'rs apply sum1 ; call 1,s ; cancel',               # F27: the receiver's String() calls the mocked method
@@ -288,7 +316,7 @@ NOHOME_CORPUS = [
 
 def strip_dbg(body):
     """the same scenario with the OpenDebug/CloseDebug/OpenTrace/CloseTrace operations removed ('' if nothing else is left)"""
-    pre = NOHOME if body.startswith(NOHOME) else ''
+    pre = prefix_of(body)
     tgt, rest = body[len(pre):].split(' ', 1)
     keep = [o for o in rest.split(' ; ') if not o.startswith('dbg ')]
     return f'{pre}{tgt} ' + ' ; '.join(keep) if keep else ''
@@ -298,7 +326,7 @@ def erase_T(body, T):
     """transcript of `body` without the tokens of its switch operations (None if T is not a full transcript)"""
     if T is None or not T.startswith('T='):
         return None
-    ops = body[len(NOHOME) if body.startswith(NOHOME) else 0:].split(' ', 1)[1].split(' ; ')
+    ops = body[len(prefix_of(body)):].split(' ', 1)[1].split(' ; ')
     T, _, ptags = T.partition(' P=')
     toks = T[2:].split('|')
     if len(toks) != len(ops):
@@ -485,7 +513,8 @@ def execute(bodies, risky, sv, tag='c19'):
         for cfg in CFGS:
             g[cfg] = len(ops)
             ops.append(f'c19.lib {cfg} {body.split()[1]}' if body.startswith('lib ') else
-                       f'c19.h {cfg} {body[len(NOHOME):]}' if body.startswith(NOHOME) else f'c19.s {cfg} {body}')
+                       f'c19.h {cfg} {body[len(NOHOME):]}' if body.startswith(NOHOME) else
+                       f'c19.v {cfg} {body[len(VARP):]}' if body.startswith(VARP) else f'c19.s {cfg} {body}')
         groups.append((body, g, rk))
     sv0 = len(ops)
     ops += sv
@@ -663,11 +692,11 @@ def run(tier):
     # ---- evidence (all numbers measured)
     dist = {}
     for body, g, rk in groups:
-        t = body[len(NOHOME):].split()[0] + '@nohome' if body.startswith(NOHOME) else body.split()[0]
+        t = body[len(NOHOME):].split()[0] + '@nohome' if body.startswith(NOHOME) else body[len(prefix_of(body)):].split()[0]
         dist[t] = dist.get(t, 0) + 1
     opk = {}
     for body, g, rk in groups:
-        for o in ([] if body.startswith('lib ') else body[len(NOHOME) if body.startswith(NOHOME) else 0:].split(' ; ')):
+        for o in ([] if body.startswith('lib ') else body[len(prefix_of(body)):].split(' ; ')):
             k = o.split()[1] if o.split()[0] in SHAPES else o.split()[0]
             opk[k] = opk.get(k, 0) + 1
     dbg_lines = [impl[g['debug']] for _, g, _ in groups if impl[g['debug']]]
@@ -722,7 +751,7 @@ def replay(body):
                 print(f'{op}\n  impl : {impl[i]}\n  model: {model[i] if model else None}')
                 rc |= int(not norm_for_model(impl[i], model[i] if model else impl[i]))
             return rc
-    isolated = bool(CYC_RE.search(scen)) or scen.split()[0] in ('it', 'ow', 'ox', 'oz', 'lib')
+    isolated = bool(CYC_RE.search(scen)) or scen.split()[0] in ('it', 'rs', 'ow', 'ox', 'oz', 'lib')
     if not isolated:
         twin = strip_dbg(scen) if ' dbg ' in scen else ''
         ops, impl, model, groups, _ = execute([scen] + ([twin] if twin else []), [], [], tag='c19-replay')
